@@ -172,7 +172,11 @@ def run_static(ffi, c):
             except Exception as e:
                 b = ["err", type(e).__name__]
             return ["pair", a, b]
-    return dict(out=in_child(fn), size=ffi.sizeof(T))
+    try:
+        out = fn()
+    except Exception as e:
+        out = ["err", type(e).__name__]
+    return dict(out=out, size=ffi.sizeof(T))
 
 
 def main(payload):
@@ -187,23 +191,20 @@ def main(payload):
 
     def one(c):
         try:
-            return run_case(ffi, c)
+            return run_static(ffi, c) if c["kind"] == "static" else run_case(ffi, c)
         except Exception as e:
             return dict(error="%s: %s" % (type(e).__name__, e))
 
     def single(i):
         r = in_child(lambda: one(cases[i]))
         if isinstance(r, list):
-            r = dict(crash=r[1]) if r[0] == "crash" else dict(error="child raised %s" % r[1])
+            if cases[i]["kind"] == "static":
+                r = dict(out=r, size=ffi.sizeof(cases[i]["item"]))       # ['crash', signal]
+            else:
+                r = dict(crash=r[1]) if r[0] == "crash" else dict(error="child raised %s" % r[1])
         res[i] = r
 
-    seq = [i for i, c in enumerate(cases) if c["kind"] != "static"]
-    for i, c in enumerate(cases):
-        if c["kind"] == "static":
-            try:
-                res[i] = run_static(ffi, c)
-            except Exception as e:
-                res[i] = dict(error="%s: %s" % (type(e).__name__, e))
+    seq = list(range(len(cases)))
     for k in range(0, len(seq), chunk):
         idx = seq[k:k + chunk]
         if len(idx) == 1:
